@@ -1,11 +1,432 @@
 package main
 
 import (
+	"fmt"
 	"go/ast"
 	"go/token"
+	"strconv"
 )
 
-// rewriteSched is filled in with the scheduler instrumentation.
+// sched mode: every channel operation, go statement, select, close, mutex and
+// atomic access of the instrumented sources becomes a call into verifshim/vsched,
+// so that the controlled scheduler decides when it happens.
+//
+//	go f(a)                 ->  vsched.Go(func() { f(a) })
+//	ch <- v                 ->  vsched.Pre(ch, vsched.Send) <- v
+//	x := <-ch               ->  x := <-vsched.Pre(ch, vsched.Recv); vsched.Post()
+//	close(ch)               ->  vsched.Close(ch)
+//	for x := range call()   ->  for { x, ok := <-vsched.Pre(c, Recv); vsched.Post(); if !ok {break}; ... }   (only .Next()/.Events() calls)
+//	select { ... }          ->  { c0 := ..; switch vsched.Select(hasDefault, c0, kind, ...) { case 0: x := <-c0; vsched.Post(); ... } }
+//	import "sync"           ->  verifshim/vsync,  "sync/atomic" -> verifshim/vatomic
+
+var schedImports = map[string][2]string{
+	"sync":        {"sync", modPath + "/verifshim/vsync"},
+	"sync/atomic": {"atomic", modPath + "/verifshim/vatomic"},
+}
+
+type schedRewriter struct {
+	fset    *token.FileSet
+	changed bool
+	n       int
+	err     error
+}
+
+func sel(pkg, name string) ast.Expr {
+	return &ast.SelectorExpr{X: ast.NewIdent(pkg), Sel: ast.NewIdent(name)}
+}
+
+func call(fn ast.Expr, args ...ast.Expr) *ast.CallExpr { return &ast.CallExpr{Fun: fn, Args: args} }
+
+func preCall(ch ast.Expr, kind string) ast.Expr {
+	return call(sel("vsched", "Pre"), ch, sel("vsched", kind))
+}
+
+func postStmt() ast.Stmt { return &ast.ExprStmt{X: call(sel("vsched", "Post"))} }
+
 func rewriteSched(fset *token.FileSet, f *ast.File) (bool, error) {
-	return false, nil
+	rw := &schedRewriter{fset: fset}
+	importChanged := false
+	for _, imp := range f.Imports {
+		p, _ := strconv.Unquote(imp.Path.Value)
+		if r, ok := schedImports[p]; ok {
+			if imp.Name == nil {
+				imp.Name = ast.NewIdent(r[0])
+			}
+			imp.Path.Value = strconv.Quote(r[1])
+			importChanged = true
+		}
+	}
+	for _, d := range f.Decls {
+		fd, ok := d.(*ast.FuncDecl)
+		if !ok || fd.Body == nil {
+			continue
+		}
+		rw.block(fd.Body)
+	}
+	// function literals in package-level variable initialisers
+	for _, d := range f.Decls {
+		if gd, ok := d.(*ast.GenDecl); ok {
+			ast.Inspect(gd, func(n ast.Node) bool {
+				if fl, ok := n.(*ast.FuncLit); ok {
+					rw.block(fl.Body)
+					return false
+				}
+				return true
+			})
+		}
+	}
+	if rw.err != nil {
+		return false, rw.err
+	}
+	if rw.changed {
+		addImport(f, "vsched", modPath+"/verifshim/vsched")
+		// synthesized nodes have no positions: drop the comments inside the file body
+		// (build constraints precede the package clause and are kept)
+		var keep []*ast.CommentGroup
+		for _, cg := range f.Comments {
+			if cg.End() < f.Package {
+				keep = append(keep, cg)
+			}
+		}
+		f.Comments = keep
+	}
+	return rw.changed || importChanged, nil
+}
+
+func addImport(f *ast.File, name, path string) {
+	spec := &ast.ImportSpec{Name: ast.NewIdent(name), Path: &ast.BasicLit{Kind: token.STRING, Value: strconv.Quote(path)}}
+	for _, d := range f.Decls {
+		if gd, ok := d.(*ast.GenDecl); ok && gd.Tok == token.IMPORT {
+			gd.Specs = append(gd.Specs, spec)
+			if !gd.Lparen.IsValid() {
+				gd.Lparen = gd.Pos()
+				gd.Rparen = gd.End()
+			}
+			f.Imports = append(f.Imports, spec)
+			return
+		}
+	}
+	gd := &ast.GenDecl{Tok: token.IMPORT, Specs: []ast.Spec{spec}}
+	f.Decls = append([]ast.Decl{gd}, f.Decls...)
+	f.Imports = append(f.Imports, spec)
+}
+
+// block rewrites the statements of a block in place.
+func (rw *schedRewriter) block(b *ast.BlockStmt) {
+	if b == nil {
+		return
+	}
+	b.List = rw.stmts(b.List)
+}
+
+func (rw *schedRewriter) stmts(list []ast.Stmt) []ast.Stmt {
+	var out []ast.Stmt
+	for _, s := range list {
+		out = append(out, rw.stmt(s)...)
+	}
+	return out
+}
+
+// exprs rewrites receive expressions, close calls and function literals inside an
+// expression; reports whether a receive was rewritten.
+func (rw *schedRewriter) expr(e *ast.Expr) (recv bool) {
+	if e == nil || *e == nil {
+		return false
+	}
+	switch x := (*e).(type) {
+	case *ast.FuncLit:
+		rw.block(x.Body)
+		return false
+	case *ast.UnaryExpr:
+		if x.Op == token.ARROW {
+			rw.expr(&x.X)
+			x.X = preCall(x.X, "Recv")
+			rw.changed = true
+			return true
+		}
+		return rw.expr(&x.X)
+	case *ast.CallExpr:
+		if id, ok := x.Fun.(*ast.Ident); ok && id.Name == "close" && len(x.Args) == 1 {
+			rw.expr(&x.Args[0])
+			x.Fun = sel("vsched", "Close")
+			rw.changed = true
+			return false
+		}
+		r := rw.expr(&x.Fun)
+		for i := range x.Args {
+			if rw.expr(&x.Args[i]) {
+				r = true
+			}
+		}
+		return r
+	case *ast.ParenExpr:
+		return rw.expr(&x.X)
+	case *ast.BinaryExpr:
+		a := rw.expr(&x.X)
+		b := rw.expr(&x.Y)
+		return a || b
+	case *ast.SelectorExpr:
+		return rw.expr(&x.X)
+	case *ast.IndexExpr:
+		a := rw.expr(&x.X)
+		b := rw.expr(&x.Index)
+		return a || b
+	case *ast.StarExpr:
+		return rw.expr(&x.X)
+	case *ast.TypeAssertExpr:
+		return rw.expr(&x.X)
+	case *ast.SliceExpr:
+		return rw.expr(&x.X)
+	case *ast.CompositeLit:
+		r := false
+		for i := range x.Elts {
+			if rw.expr(&x.Elts[i]) {
+				r = true
+			}
+		}
+		return r
+	case *ast.KeyValueExpr:
+		return rw.expr(&x.Value)
+	}
+	return false
+}
+
+func (rw *schedRewriter) stmt(s ast.Stmt) []ast.Stmt {
+	switch x := s.(type) {
+	case *ast.BlockStmt:
+		rw.block(x)
+	case *ast.LabeledStmt:
+		if ss, ok := x.Stmt.(*ast.SelectStmt); ok {
+			blk := rw.selectStmt(ss)
+			// keep the label on the switch so that `break L` still works
+			n := len(blk.List)
+			blk.List[n-1] = &ast.LabeledStmt{Label: x.Label, Stmt: blk.List[n-1]}
+			return []ast.Stmt{blk}
+		}
+		inner := rw.stmt(x.Stmt)
+		x.Stmt = inner[0]
+		return append([]ast.Stmt{x}, inner[1:]...)
+	case *ast.GoStmt:
+		for i := range x.Call.Args {
+			rw.expr(&x.Call.Args[i])
+		}
+		rw.expr(&x.Call.Fun)
+		rw.changed = true
+		var fn ast.Expr
+		if fl, ok := x.Call.Fun.(*ast.FuncLit); ok && len(x.Call.Args) == 0 && fl.Type.Params.NumFields() == 0 {
+			fn = fl
+		} else {
+			fn = &ast.FuncLit{Type: &ast.FuncType{Params: &ast.FieldList{}}, Body: &ast.BlockStmt{List: []ast.Stmt{&ast.ExprStmt{X: x.Call}}}}
+		}
+		return []ast.Stmt{&ast.ExprStmt{X: call(sel("vsched", "Go"), fn)}}
+	case *ast.SendStmt:
+		rw.expr(&x.Chan)
+		rw.expr(&x.Value)
+		x.Chan = preCall(x.Chan, "Send")
+		rw.changed = true
+	case *ast.ExprStmt:
+		if rw.expr(&x.X) {
+			return []ast.Stmt{x, postStmt()}
+		}
+	case *ast.AssignStmt:
+		r := false
+		for i := range x.Rhs {
+			if rw.expr(&x.Rhs[i]) {
+				r = true
+			}
+		}
+		for i := range x.Lhs {
+			rw.expr(&x.Lhs[i])
+		}
+		if r {
+			return []ast.Stmt{x, postStmt()}
+		}
+	case *ast.DeclStmt:
+		if gd, ok := x.Decl.(*ast.GenDecl); ok {
+			r := false
+			for _, sp := range gd.Specs {
+				if vs, ok := sp.(*ast.ValueSpec); ok {
+					for i := range vs.Values {
+						if rw.expr(&vs.Values[i]) {
+							r = true
+						}
+					}
+				}
+			}
+			if r {
+				return []ast.Stmt{x, postStmt()}
+			}
+		}
+	case *ast.ReturnStmt:
+		for i := range x.Results {
+			if rw.expr(&x.Results[i]) {
+				rw.err = fmt.Errorf("%s: receive inside return statement is not supported", rw.fset.Position(x.Pos()))
+			}
+		}
+	case *ast.DeferStmt:
+		rw.expr(&x.Call.Fun)
+		for i := range x.Call.Args {
+			rw.expr(&x.Call.Args[i])
+		}
+	case *ast.IfStmt:
+		var pre []ast.Stmt
+		if x.Init != nil {
+			in := rw.stmt(x.Init)
+			if len(in) > 1 {
+				rw.err = fmt.Errorf("%s: receive inside if-init is not supported", rw.fset.Position(x.Pos()))
+			}
+			x.Init = in[0]
+		}
+		if rw.expr(&x.Cond) {
+			rw.err = fmt.Errorf("%s: receive inside if condition is not supported", rw.fset.Position(x.Pos()))
+		}
+		rw.block(x.Body)
+		if x.Else != nil {
+			e := rw.stmt(x.Else)
+			x.Else = e[0]
+		}
+		return append(pre, x)
+	case *ast.ForStmt:
+		if x.Init != nil {
+			x.Init = rw.stmt(x.Init)[0]
+		}
+		if x.Cond != nil && rw.expr(&x.Cond) {
+			rw.err = fmt.Errorf("%s: receive inside for condition is not supported", rw.fset.Position(x.Pos()))
+		}
+		if x.Post != nil {
+			x.Post = rw.stmt(x.Post)[0]
+		}
+		rw.block(x.Body)
+	case *ast.RangeStmt:
+		rw.block(x.Body)
+		if ce, ok := x.X.(*ast.CallExpr); ok {
+			if se, ok := ce.Fun.(*ast.SelectorExpr); ok && (se.Sel.Name == "Next" || se.Sel.Name == "Events") && len(ce.Args) == 0 {
+				return []ast.Stmt{rw.rangeChan(x)}
+			}
+		}
+		rw.expr(&x.X)
+	case *ast.SwitchStmt:
+		if x.Init != nil {
+			x.Init = rw.stmt(x.Init)[0]
+		}
+		rw.expr(&x.Tag)
+		rw.block(x.Body)
+	case *ast.TypeSwitchStmt:
+		if x.Init != nil {
+			x.Init = rw.stmt(x.Init)[0]
+		}
+		rw.block(x.Body)
+	case *ast.CaseClause:
+		for i := range x.List {
+			rw.expr(&x.List[i])
+		}
+		x.Body = rw.stmts(x.Body)
+	case *ast.SelectStmt:
+		return []ast.Stmt{rw.selectStmt(x)}
+	case *ast.IncDecStmt:
+		rw.expr(&x.X)
+	}
+	return []ast.Stmt{s}
+}
+
+func (rw *schedRewriter) fresh(prefix string) *ast.Ident {
+	rw.n++
+	return ast.NewIdent(fmt.Sprintf("verif%s%d", prefix, rw.n))
+}
+
+// rangeChan rewrites `for k := range X.Next()`.
+func (rw *schedRewriter) rangeChan(x *ast.RangeStmt) ast.Stmt {
+	rw.changed = true
+	ch := rw.fresh("Ch")
+	ok := rw.fresh("Ok")
+	var key ast.Expr = ast.NewIdent("_")
+	if x.Key != nil {
+		key = x.Key
+	}
+	tok := token.DEFINE
+	if x.Tok == token.ASSIGN {
+		// `for k = range ch`: ok must be declared separately
+		tok = token.ASSIGN
+	}
+	var body []ast.Stmt
+	recvStmt := &ast.AssignStmt{Lhs: []ast.Expr{key, ok}, Tok: token.DEFINE, Rhs: []ast.Expr{&ast.UnaryExpr{Op: token.ARROW, X: preCall(ch, "Recv")}}}
+	if tok == token.ASSIGN {
+		rw.err = fmt.Errorf("%s: range with assignment over a channel is not supported", rw.fset.Position(x.Pos()))
+	}
+	body = append(body, recvStmt, postStmt(),
+		&ast.IfStmt{Cond: &ast.UnaryExpr{Op: token.NOT, X: ok}, Body: &ast.BlockStmt{List: []ast.Stmt{&ast.BranchStmt{Tok: token.BREAK}}}})
+	body = append(body, x.Body.List...)
+	return &ast.BlockStmt{List: []ast.Stmt{
+		&ast.AssignStmt{Lhs: []ast.Expr{ch}, Tok: token.DEFINE, Rhs: []ast.Expr{x.X}},
+		&ast.ForStmt{Body: &ast.BlockStmt{List: body}},
+	}}
+}
+
+func (rw *schedRewriter) selectStmt(x *ast.SelectStmt) *ast.BlockStmt {
+	rw.changed = true
+	var hoists []ast.Stmt
+	var args []ast.Expr
+	var clauses []ast.Stmt
+	hasDefault := false
+	idx := 0
+	for _, c := range x.Body.List {
+		cc := c.(*ast.CommClause)
+		body := rw.stmts(cc.Body)
+		if cc.Comm == nil {
+			hasDefault = true
+			clauses = append(clauses, &ast.CaseClause{Body: body})
+			continue
+		}
+		chv := rw.fresh("C")
+		var opStmts []ast.Stmt
+		switch cm := cc.Comm.(type) {
+		case *ast.SendStmt:
+			rw.expr(&cm.Chan)
+			rw.expr(&cm.Value)
+			val := rw.fresh("V")
+			hoists = append(hoists,
+				&ast.AssignStmt{Lhs: []ast.Expr{chv}, Tok: token.DEFINE, Rhs: []ast.Expr{cm.Chan}},
+				&ast.AssignStmt{Lhs: []ast.Expr{val}, Tok: token.DEFINE, Rhs: []ast.Expr{cm.Value}})
+			args = append(args, chv, sel("vsched", "Send"))
+			opStmts = []ast.Stmt{&ast.SendStmt{Chan: chv, Value: val}}
+		case *ast.ExprStmt: // case <-ch:
+			ue := cm.X.(*ast.UnaryExpr)
+			rw.expr(&ue.X)
+			hoists = append(hoists, &ast.AssignStmt{Lhs: []ast.Expr{chv}, Tok: token.DEFINE, Rhs: []ast.Expr{ue.X}})
+			args = append(args, chv, sel("vsched", "Recv"))
+			opStmts = []ast.Stmt{&ast.ExprStmt{X: &ast.UnaryExpr{Op: token.ARROW, X: chv}}, postStmt()}
+		case *ast.AssignStmt: // case x := <-ch:  /  case x, ok = <-ch:
+			ue := cm.Rhs[0].(*ast.UnaryExpr)
+			rw.expr(&ue.X)
+			hoists = append(hoists, &ast.AssignStmt{Lhs: []ast.Expr{chv}, Tok: token.DEFINE, Rhs: []ast.Expr{ue.X}})
+			args = append(args, chv, sel("vsched", "Recv"))
+			as := &ast.AssignStmt{Lhs: cm.Lhs, Tok: cm.Tok, Rhs: []ast.Expr{&ast.UnaryExpr{Op: token.ARROW, X: chv}}}
+			opStmts = []ast.Stmt{as, postStmt()}
+			// keep "declared and not used" away when the body ignores the variable
+			if cm.Tok == token.DEFINE {
+				for _, l := range cm.Lhs {
+					if id, ok := l.(*ast.Ident); ok && id.Name != "_" {
+						opStmts = append(opStmts, &ast.AssignStmt{Lhs: []ast.Expr{ast.NewIdent("_")}, Tok: token.ASSIGN, Rhs: []ast.Expr{ast.NewIdent(id.Name)}})
+					}
+				}
+			}
+		}
+		clauses = append(clauses, &ast.CaseClause{
+			List: []ast.Expr{&ast.BasicLit{Kind: token.INT, Value: strconv.Itoa(idx)}},
+			Body: append(opStmts, body...),
+		})
+		idx++
+	}
+	hd := "false"
+	if hasDefault {
+		hd = "true"
+	} else {
+		clauses = append(clauses, &ast.CaseClause{Body: []ast.Stmt{&ast.ExprStmt{X: call(ast.NewIdent("panic"), &ast.BasicLit{Kind: token.STRING, Value: strconv.Quote("vsched: no select case chosen")})}}})
+	}
+	sw := &ast.SwitchStmt{
+		Tag:  call(sel("vsched", "Select"), append([]ast.Expr{ast.NewIdent(hd)}, args...)...),
+		Body: &ast.BlockStmt{List: clauses},
+	}
+	// the hoisted channel variables must count as used even if Select got them as `any`
+	return &ast.BlockStmt{List: append(hoists, sw)}
 }
